@@ -15,9 +15,10 @@ ID = "C12"
 CASE_BUDGET_S = 900
 
 DTYPES = ["?", "i1", "i2", "i4", "i8", "u1", "u2", "u4", "u8", "f2", "f4", "f8", "c8", "c16"]
+SWAPPED = [">i2", ">i8", ">u4", ">f4", ">f8", ">c16"]       # non-native byte order (same values, other storage)
 
 META = {
-    "rule": "14 numeric dtypes (bool, 8 integer widths, float16/32/64, complex64/128): construction from data of each dtype "
+    "rule": "14 numeric dtypes (+ 6 byte-swapped ones) (bool, 8 integer widths, float16/32/64, complex64/128): construction from data of each dtype "
             "(ndarray, list of numpy scalars, dict, attributes), dtype= requests for all 14x14 (source, target) pairs through "
             "polynomial / aspolynomial / polynomial_from_attributes / astype, variable/symbols/monomial with dtype=; all ordered "
             "dtype pairs x {+,-,*,**2, where, concatenate, stack} on polynomials with cross terms; per dtype: indexing, 12 shape "
@@ -73,7 +74,8 @@ def compare_cols(got, want_cols, want_dtype, names_got, names_want=("q0", "q1"))
     w = wellformed(got)
     if w:
         return [f"ill-formed: {w}"]
-    if want_dtype is not None and got.dtype != numpy.dtype(want_dtype):
+    # byte order is storage, not type: numpy itself returns native-order results for most operations on swapped input
+    if want_dtype is not None and got.dtype.newbyteorder("=") != numpy.dtype(want_dtype).newbyteorder("="):
         probs.append(f"dtype {got.dtype} != numpy's {numpy.dtype(want_dtype)}")
     g = {}
     for e, c in coef_dict(got).items():
@@ -126,7 +128,7 @@ def twice(R, op, label, f, check, tags, sub=None):
 
 def cases(tier, seed):
     out = []
-    for dt in DTYPES:
+    for dt in DTYPES + SWAPPED:
         out.append({"k": "construct", "d": dt})
         out.append({"k": "perdtype", "d": dt})
         out.append({"k": "pairs", "d": dt})
@@ -174,6 +176,12 @@ def run_case(case, R):
                   lambda got: compare_cols(got, want, tgt, None), tg)
             twice(R, "aspolynomial(poly,dtype)", f"aspolynomial({src} poly, dtype={tgt})", lambda: numpoly.aspolynomial(p, dtype=tgt),
                   lambda got: compare_cols(got, want, tgt, None), tg)
+            for nlab, nm in (("names tuple", ("q0", "q1")), ("names list", ["q0", "q1"]), ("names=indeterminants", p.indeterminants), ("names='q'", "q")):
+                twice(R, "aspolynomial(poly,names,dtype)", f"aspolynomial({src} poly, {nlab}, dtype={tgt})",
+                      lambda: numpoly.aspolynomial(p, names=nm, dtype=tgt), lambda got: compare_cols(got, want, tgt, None), tg + ["names_given"])
+                twice(R, "polynomial(poly,names,dtype)", f"polynomial({src} poly, {nlab}, dtype={tgt})",
+                      lambda: numpoly.polynomial(p, names=nm if not isinstance(nm, str) else ("q0", "q1"), dtype=tgt),
+                      lambda got: compare_cols(got, want, tgt, None), tg + ["names_given"])
             twice(R, "astype", f"({src} poly).astype({tgt})", lambda: p.astype(tgt), lambda got: compare_cols(got, want, tgt, None), tg)
             twice(R, "from_attributes(dtype)", f"from_attributes({src}, dtype={tgt})",
                   lambda: numpoly.polynomial_from_attributes(sorted(cols), [cols[e] for e in sorted(cols)], ("q0", "q1"), dtype=tgt),
@@ -207,6 +215,21 @@ def run_case(case, R):
                         wmul[e] = wmul[e] + t if e in wmul else t
                 rdt = numpy.result_type(ca[keys[0]], cb[keys[0]])
             twice(R, "add", f"{da} + {db}", lambda: a + b, lambda got: compare_cols(got, wadd, wadd[keys[0]].dtype, None), tags)
+            # operands that carry an all-zero term (a retained zero constant): the product has keys that only such a term reaches
+            az, caz = poly_of(da, 0)
+            raw_view(az)[az.keys[0]] = 0
+            caz = dict(caz)
+            caz[(0, 0)] = numpy.zeros_like(caz[(0, 0)])
+            with numpy.errstate(all="ignore"):
+                wz = {}
+                for e1 in keys:
+                    for e2 in keys:
+                        e = tuple(x + y for x, y in zip(e1, e2))
+                        t = caz[e1] * cb[e2]
+                        wz[e] = wz[e] + t if e in wz else t
+            twice(R, "multiply", f"{da} (zero constant term) * {db}", lambda: az * b, lambda got: compare_cols(got, wz, wz[(0, 0)].dtype, None), tags + ["zero_term_operand"])
+            twice(R, "multiply", f"{db} * {da} (zero constant term)", lambda: b * az, lambda got: compare_cols(got, wz, wz[(0, 0)].dtype, None), tags + ["zero_term_operand"])
+            twice(R, "add", f"{da} (zero constant term) + {db}", lambda: az + b, lambda got: compare_cols(got, {e: caz[e] + cb[e] for e in keys}, wadd[keys[0]].dtype, None), tags + ["zero_term_operand"])
             if wsub is not None:
                 twice(R, "subtract", f"{da} - {db}", lambda: a - b, lambda got: compare_cols(got, wsub, wsub[keys[0]].dtype, None), tags)
             twice(R, "multiply", f"{da} * {db}", lambda: a * b, lambda got: compare_cols(got, wmul, wmul[(0, 0)].dtype, None), tags)
@@ -263,7 +286,7 @@ def run_case(case, R):
         for label, g, h in unary:
             if label == "decompose[0]":
                 twice(R, "decompose", f"decompose on {dt}", lambda: numpoly.decompose(p),
-                      lambda got: ([] if got.dtype == numpy.dtype(dt) else [f"dtype {got.dtype} != {dt}"]) + sum(
+                      lambda got: ([] if got.dtype.newbyteorder("=") == numpy.dtype(dt).newbyteorder("=") else [f"dtype {got.dtype} != {dt}"]) + sum(
                           [compare_cols(got[i], {e: (cols[e] if sorted(cols).index(e) == i else numpy.zeros(4, dt)) for e in keys}, dt, None)
                            for i in range(len(keys))], []) if got.shape == (3, 4) else [f"shape {got.shape}"], tags)
                 continue
@@ -297,7 +320,7 @@ def run_case(case, R):
               lambda got: compare_cols(got, {}, None, None) + ([] if got.shape == (4,) else [f"shape {got.shape}"]), tags + ["no_surviving_term"])
         twice(R, "getitem", f"zero element of a 1-term poly ({dt})", lambda: (only_q1 * numpy.array([1, 0, 1, 0]).astype(dt))[1],
               lambda got: compare_cols(got, {}, None, None), tags + ["no_surviving_term"])
-        twice(R, "result_type", f"result_type({dt} poly, {dt} poly)", lambda: numpoly.result_type(p, p), lambda got: [] if got == numpy.dtype(dt) else [f"{got} != {dt}"], tags)
+        twice(R, "result_type", f"result_type({dt} poly, {dt} poly)", lambda: numpoly.result_type(p, p), lambda got: [] if numpy.dtype(got).newbyteorder("=") == numpy.dtype(dt).newbyteorder("=") else [f"{got} != {dt}"], tags)
         twice(R, "common_type", f"common_type({dt} poly)", lambda: numpoly.common_type(p),
               lambda got: [] if (dt == "?" or got == numpy.common_type(cols[(0, 0)])) else [f"{got} != {numpy.common_type(cols[(0, 0)])}"], tags) if dt != "?" else None
     elif k == "empty":
